@@ -34,7 +34,7 @@ def showSink (status : String) (cap : Nat) (s : Sink) : String :=
     | _ =>
       let m := s.memory
       ((m.drop 16).take cap, m.length == cap + 32 && m.take 16 == canaryL && m.drop (16 + cap) == canaryR)
-  s!"{status};pos={s.position};buf={hexOrDash buf};canary={if ok then "ok" else "clobbered"}"
+  s!"{status} pos={s.position} buf={hexOrDash buf} canary={if ok then "ok" else "clobbered"}"
 
 def sinkOp (w : List String) : String :=
   match w with
@@ -47,7 +47,7 @@ def sinkOp (w : List String) : String :=
         match s.writeSeq cs with
         | none => "panic"
         | some (s', oks) =>
-          let st := if oks.isEmpty then "-" else ",".intercalate (oks.map fun o => if o then "ok" else "err")
+          let st := "seq:" ++ (if oks.isEmpty then "-" else ",".intercalate (oks.map fun o => if o then "ok" else "err"))
           showSink st cap s'
     | _, _ => "bad-op"
   | _ => "bad-op"
